@@ -144,6 +144,36 @@ class Emitter(object):
             return t.b
         raise Unsupported('elem_type of ' + t.key())
 
+    def sizeof(self, t):
+        """(size, align) under the x86-64 data layout; None if unknown"""
+        k = t.k
+        if k == 'int':
+            w = t.a
+            b = 1 if w <= 8 else 2 if w <= 16 else 4 if w <= 32 else 8 if w <= 64 else 16
+            return b, b
+        if k == 'float': return 4, 4
+        if k == 'double': return 8, 8
+        if k == 'fp80': return 16, 16
+        if k == 'ptr': return 8, 8
+        if k in ('arr', 'vec'):
+            r = self.sizeof(t.b)
+            if r is None: return None
+            return r[0] * t.a, r[1]
+        if k in ('struct', 'lit'):
+            b = self.struct_body(t)
+            if b is None: return None
+            off = 0; al = 1
+            for mt in b.b:
+                r = self.sizeof(mt)
+                if r is None: return None
+                ma = 1 if b.a else r[1]
+                off = (off + ma - 1) // ma * ma
+                off += r[0]
+                al = max(al, ma)
+            off = (off + al - 1) // al * al
+            return off, al
+        return None
+
     def emit_types(self):
         """Emit struct definitions in by-value dependency order; may discover
         new types while emitting, so iterate until stable."""
@@ -281,6 +311,10 @@ class Emitter(object):
             return self.val(self.m.aliases[name])
         if name in self.m.funcs:
             f = self.m.funcs[name]
+            if not f.defined and name in BUILTIN_EXTERNS:
+                return '((%s)%s)' % (self.ct(t), BUILTIN_EXTERNS[name])
+            if not f.defined and name in LIBC:
+                return '((%s)%s)' % (self.ct(t), name)
             cn = self.func_cname(f)
             return '((%s)%s)' % (self.ct(t), cn)
         if name.startswith('_ZTI') or name.startswith('_ZTS') or name.startswith('_ZTVN10__cxxabiv'):
@@ -294,7 +328,7 @@ class Emitter(object):
         op = v.a
         x, ops = v.b
         if op == 'getelementptr':
-            return self.gep(x, ops, fn)
+            return self.gep(x, ops, fn)[0]
         if op == 'icmp':
             return self.icmp(x, ops[0].t, self.val(ops[0], fn), self.val(ops[1], fn))
         if op == 'select':
@@ -521,7 +555,7 @@ class Emitter(object):
     def proto(self, f, names=False):
         ps = []
         for i, (t, nm) in enumerate(f.params):
-            ps.append(self.ct(t) + (' v_%s' % san(nm) if names else ''))
+            ps.append(self.ct(t) + (' v_%s' % san(nm if nm is not None else 'p%d' % i) if names else ''))
         if f.vararg:
             ps.append('...')
         if not ps:
@@ -742,6 +776,14 @@ class FuncEmitter(object):
                 todo.append(term.x['normal'])
         self.reach = reach
         self.blocks = blocks
+        self.first_cast = {}
+        self.defs = {}
+        for b in f.blocks:
+            for ins in b.insts:
+                if ins.dst is not None:
+                    self.defs[ins.dst] = ins
+                if ins.op == 'bitcast' and ins.ops[0].k == 'local' and ins.t.k == 'ptr':
+                    self.first_cast.setdefault(ins.ops[0].a, ins.t.a)
         for b in f.blocks:
             if b.name not in reach:
                 continue
@@ -888,6 +930,16 @@ class FuncEmitter(object):
         name = callee.a if callee.k == 'global' else None
         if name and name.startswith('\\01'):
             name = name[3:]
+        seen = 0
+        while name is not None and name in E.m.aliases and seen < 8:
+            av = E.m.aliases[name]
+            seen += 1
+            if av.k == 'global':
+                name = av.a
+            elif av.k == 'cexpr' and av.b[1] and av.b[1][0].k == 'global':
+                name = av.b[1][0].a
+            else:
+                break
         expr = None
         done = False
         A = [self.V(a) for a in args]
@@ -897,7 +949,24 @@ class FuncEmitter(object):
             elif name.startswith('llvm.memcpy') or name.startswith('llvm.memmove') or name.startswith('llvm.memset'):
                 fnm = name.split('.')[1]
                 n = A[2]
-                if fnm == 'memset':
+                typed = None
+                if args[2].k == 'int' and 0 < args[2].a <= 4096:
+                    N = args[2].a
+                    typed = self.origin_type(args[0], N)
+                    if typed is None and fnm != 'memset':
+                        typed = self.origin_type(args[1], N)
+                if typed is not None and fnm == 'memset' and args[1].k == 'int' and args[1].a == 0:
+                    ctn = E.ct(typed)
+                    if E.is_agg(typed):
+                        self.w('*(%s*)%s = (%s){0};' % (ctn, A[0], ctn), ins.dbg)
+                    else:
+                        self.w('*(%s*)%s = (%s)0;' % (ctn, A[0], ctn), ins.dbg)
+                    done = True
+                elif typed is not None and fnm != 'memset':
+                    ctn = E.ct(typed)
+                    self.w('*(%s*)%s = *(%s*)%s;' % (ctn, A[0], ctn, A[1]), ins.dbg)
+                    done = True
+                elif fnm == 'memset':
                     self.w('if (%s != 0) memset((void*)%s, (int)%s, (size_t)%s);' % (n, A[0], A[1], n), ins.dbg)
                 else:
                     self.w('if (%s != 0) %s((void*)%s, (const void*)%s, (size_t)%s);' % (n, fnm, A[0], A[1], n), ins.dbg)
@@ -967,6 +1036,17 @@ class FuncEmitter(object):
             tgt = BUILTIN_EXTERNS.get(name, 'ir_throw')
             if tgt in ('ir_new',):
                 expr = '(%s)ir_new(%s)' % (E.ct(rt), A[0])
+                ty = self.first_cast.get(ins.dst) if name != '__cxa_allocate_exception' else None
+                sz = E.sizeof(ty) if ty is not None and ty.k not in ('void', 'func', 'opaque') else None
+                if sz and sz[0] > 0 and not (ty.k == 'int' and ty.a == 8):
+                    cty = E.ct(ty)
+                    if args[0].k == 'int' and args[0].a % sz[0] == 0 and args[0].a > 0:
+                        kk = args[0].a // sz[0]
+                        expr = '(%s)(%s*)malloc(sizeof(%s)%s)' % (E.ct(rt), cty, cty, '' if kk == 1 else ' * %d' % kk)
+                    elif args[0].k != 'int':
+                        # allocator<T>::allocate(n) / new T[n]: the size is n*sizeof(T); written so that
+                        # CBMC's allocation model sees sizeof(T)*count and creates a typed array object
+                        expr = '(%s)(%s*)malloc(sizeof(%s) * (%s / sizeof(%s)))' % (E.ct(rt), cty, cty, A[0], cty)
             elif tgt in ('ir_delete', 'ir_guard_release'):
                 expr = '%s((void*)%s)' % (tgt, A[0])
             elif tgt == 'ir_guard_acquire':
@@ -1035,6 +1115,61 @@ class FuncEmitter(object):
                 self.assign(ins, rt, expr)
         if ins.op == 'invoke':
             self.w(self.goto(b.name, ins.x['normal']))
+
+    def origin_type(self, v, size):
+        """For an i8* operand of memcpy/memset: a type T with sizeof(T)==size that the pointer
+        really points at (so that the operation can be a typed assignment), or None."""
+        E = self.E
+        cands = []
+        if v.k == 'local' and v.a in self.defs:
+            d = self.defs[v.a]
+            if d.op == 'bitcast' and d.ops[0].t.k == 'ptr':
+                cands.append(d.ops[0].t.a)
+            elif d.op == 'getelementptr':
+                cur = d.x
+                last_arr = None
+                ok = True
+                for ix in d.ops[2:]:
+                    if cur.k in ('struct', 'lit'):
+                        if ix.k not in ('int', 'zero'):
+                            ok = False; break
+                        cur = E.elem_type(cur, ix.a if ix.k == 'int' else 0); last_arr = None
+                    elif cur.k == 'arr':
+                        last_arr = (cur, ix); cur = cur.b
+                    else:
+                        ok = False; break
+                if ok and last_arr is not None and (last_arr[1].k == 'zero' or (last_arr[1].k == 'int' and last_arr[1].a == 0)):
+                    cands.append(last_arr[0])
+                if ok:
+                    cands.append(cur)
+        elif v.k == 'cexpr' and v.a == 'bitcast' and v.b[1][0].t.k == 'ptr':
+            cands.append(v.b[1][0].t.a)
+        elif v.k == 'cexpr' and v.a == 'getelementptr':
+            bt, ops = v.b
+            if all(o.k in ('int', 'zero') and (o.k == 'zero' or o.a == 0) for o in ops[1:]):
+                cands.append(bt)
+        for t in cands:
+            if t.k in ('void', 'func', 'opaque'):
+                continue
+            sz = E.sizeof(t)
+            if sz and sz[0] == size and size > 0:
+                return t
+            # first member chains: struct whose first field has the size
+            cur = t
+            for _ in range(6):
+                if cur.k in ('struct', 'lit'):
+                    b = E.struct_body(cur)
+                    if b is None or not b.b:
+                        break
+                    cur = b.b[0]
+                elif cur.k == 'arr':
+                    cur = cur.b
+                else:
+                    break
+                sz = E.sizeof(cur)
+                if sz and sz[0] == size and cur.k in ('struct', 'lit', 'arr'):
+                    return cur
+        return None
 
     def strlit(self, v):
         """resolve an i8* constant pointing at a constant string global to a C string literal"""
